@@ -326,7 +326,14 @@ def build(spec, with_history=True, rec=None):
                    ("samp_gmd", "sample_group_metadata")):
         if spec.get(k):
             kwargs[kwn] = {a: tuple(b) for a, b in spec[k].items()}
-    t = Table(data, list(spec["obs"]), list(spec["samp"]),
+    obs_ids, samp_ids = list(spec["obs"]), list(spec["samp"])
+    if spec.get("ids_as") == "object_array":
+        # IDs as they come out of a pandas Index / an object column
+        obs_ids = np.array(obs_ids, dtype=object)
+        samp_ids = np.array(samp_ids, dtype=object)
+    elif spec.get("ids_as") == "tuple":
+        obs_ids, samp_ids = tuple(obs_ids), tuple(samp_ids)
+    t = Table(data, obs_ids, samp_ids,
               _md_in(spec.get("obs_md"), tup),
               _md_in(spec.get("samp_md"), tup), **kwargs, **kw)
     if with_history:
@@ -375,6 +382,9 @@ def table_specs(draw, tier="quick", values="int", ids="simple", md=True,
     spec["form"] = draw(st.sampled_from(FORMS)) if forms else "dense"
     if f32 and forms and draw(st.sampled_from([False] * 9 + [True])):
         spec["form"] = draw(st.sampled_from(FORMS_F32))
+    k_ = draw(st.integers(0, 11))
+    if k_ < 2:
+        spec["ids_as"] = ["object_array", "tuple"][k_]
     if history:
         from . import ops
         spec["history"] = draw(ops.histories(history_kind,
